@@ -195,7 +195,13 @@ func (g *tgen) node(depth int, root bool) *tnode {
 		k := rng.Intn(10)
 		switch {
 		case k < 2:
-			n.parts = append(n.parts, tpart{kind: kHole, size: 1 + rng.Intn(20)})
+			hs := 1 + rng.Intn(20)
+			if g.big && rng.Intn(3) == 0 {
+				// longer than a page: one read call takes many pages of zeros
+				hs = 4090 + rng.Intn(5000)
+				g.shapes["hole>4Ki"] = true
+			}
+			n.parts = append(n.parts, tpart{kind: kHole, size: hs})
 			g.shapes["hole"] = true
 		case k < 5 || depth <= 1:
 			b := g.pickBlob()
@@ -610,7 +616,9 @@ func runTree(r *ev.Run, id string, idx int) {
 		if nviol >= 4 {
 			break
 		}
-		buf := make([]byte, q.n)
+		// the buffer holds non-zero bytes before the call: what the read reports must be
+		// what it wrote (holes included), not what the caller's memory happened to hold
+		buf := dirtyBuf(q.n, q.off)
 		n, err := fr.ReadAt(buf, int64(q.off))
 		r.Eval(1)
 		r.Count("tree_readat", 1)
@@ -697,7 +705,7 @@ func runTree(r *ev.Run, id string, idx int) {
 			if rng.Intn(2) == 0 {
 				l = 1 + rng.Intn(12)
 			}
-			buf := make([]byte, l)
+			buf := dirtyBuf(l, step)
 			full := rng.Intn(2) == 0
 			var n int
 			if full {
@@ -746,7 +754,7 @@ func runTree(r *ev.Run, id string, idx int) {
 			break
 		}
 		pos := 0
-		buf := make([]byte, bs)
+		buf := dirtyBuf(bs, bs) // reused for every call, as io.Copy does
 		for calls := 0; calls < size+8; calls++ {
 			n, err := fr3.Read(buf)
 			r.Eval(1)
